@@ -105,7 +105,10 @@ var checks = map[string]Check{
 			var js []Job
 			dirs := []string{"in", "out"}
 			if tier == "thorough" {
-				dirs = []string{"in", "out", "both"}
+				dirs = []string{"in", "out", "both", "out2"}
+			} else {
+				// several calls pending at once (two outbound; one inbound + one outbound): all non-preemptive schedules
+				js = append(js, sched("c08", "dir=out2,closer=session,yields=0", 0, 16), sched("c08", "dir=both,closer=session,yields=0", 0, 16))
 			}
 			for _, d := range dirs {
 				for _, c := range []string{"session", "peer"} {
